@@ -40,6 +40,8 @@ type Msg struct {
 
 var outMu sync.Mutex
 
+var journalCalls int
+
 func send(w *bufio.Writer, m *Msg) {
 	b, _ := json.Marshal(m)
 	outMu.Lock()
@@ -62,6 +64,7 @@ func workerMain() {
 	lim := syscall.Rlimit{Cur: 3 << 30, Max: 3 << 30}
 	syscall.Setrlimit(syscall.RLIMIT_AS, &lim)
 	debug.SetGCPercent(200)
+	debug.SetMemoryLimit(768 << 20)
 	scratch := os.Getenv("SIM_SCRATCH")
 	if scratch == "" {
 		scratch, _ = os.MkdirTemp(scratchBase(), "simw")
@@ -110,11 +113,16 @@ func workerMain() {
 				// a step that decoded garbage may have left gigabytes of dead heap
 				// behind; under the address-space limit the NEXT step would then die
 				// for it. Start every journaled step with a small heap.
-				var ms runtime.MemStats
-				runtime.ReadMemStats(&ms)
-				if ms.HeapAlloc > 256<<20 || ms.HeapSys-ms.HeapReleased > 1<<30 {
-					runtime.GC()
-					debug.FreeOSMemory()
+				// The soft memory limit (set at start-up) makes the collector
+				// run before the heap grows past it; as a backstop the heap is
+				// looked at every 64th step.
+				if journalCalls++; journalCalls%64 == 0 {
+					var ms runtime.MemStats
+					runtime.ReadMemStats(&ms)
+					if ms.HeapAlloc > 256<<20 || ms.HeapSys-ms.HeapReleased > 1<<30 {
+						runtime.GC()
+						debug.FreeOSMemory()
+					}
 				}
 				curKey.Store(key)
 				send(out, &Msg{ID: job.ID, Journal: key})
